@@ -40,10 +40,42 @@ impl Node {
             Err(_) => false,
         }
     }
+    /// Run the tool with a wall-clock limit (it is the one real external component; a call that
+    /// does not finish is treated as "tool unavailable for this query", never as a verdict).
     fn run(&self, args: &[&str]) -> Option<String> {
-        let o = Command::new(demo_path()).current_dir(&self.dir).args(args).output().ok()?;
-        let mut s = String::from_utf8_lossy(&o.stdout).to_string();
-        s.push_str(&String::from_utf8_lossy(&o.stderr));
+        use std::io::Read;
+        let mut child = Command::new(demo_path())
+            .current_dir(&self.dir)
+            .args(args)
+            .stdin(std::process::Stdio::null())
+            .stdout(std::process::Stdio::piped())
+            .stderr(std::process::Stdio::piped())
+            .spawn()
+            .ok()?;
+        let deadline = std::time::Instant::now() + std::time::Duration::from_secs(30);
+        loop {
+            match child.try_wait() {
+                Ok(Some(_)) => break,
+                Ok(None) => {
+                    if std::time::Instant::now() > deadline {
+                        let _ = child.kill();
+                        let _ = child.wait();
+                        return None;
+                    }
+                    std::thread::sleep(std::time::Duration::from_millis(2));
+                }
+                Err(_) => return None,
+            }
+        }
+        let mut s = String::new();
+        if let Some(mut o) = child.stdout.take() {
+            let _ = o.read_to_string(&mut s);
+        }
+        if let Some(mut e) = child.stderr.take() {
+            let mut t = String::new();
+            let _ = e.read_to_string(&mut t);
+            s.push_str(&t);
+        }
         Some(s)
     }
     fn path(&self, f: &str) -> PathBuf {
